@@ -19,19 +19,22 @@ oracle_c01 — line protocol (one result line per input line; the first line of 
   `state <key>`                               → `cur=<n> waiters=<n> present=<0|1>`   (T-observable, through a hook)
   `obj <t>`                                   → `cur=<n> waiters=<n> inmap=<0|1>`     (T) the `*Weighted` caller `t` holds,
                                                  whether or not the map still refers to it (`t` must be inside)
-Keys: `i<int64>` (canonical decimal) or `s<text>`. Ill-formed or not-enabled lines → `bad-op`.
+  `stress <variant> <rw> <prime> <goroutines ≤ 64> <keys ≤ 8> <ms ≤ 5000> <seed>` → `ok`   parallel run (child process)
+Keys (all valid Go map keys with reflexive equality; the token is the key's identity): `i<int>`, `l<int64>`, `h<int32>`,
+`b<uint8>`, `s<text>`, `t<int>:<text>` (struct, single map only). Ill-formed or not-enabled lines → `bad-op`.
 The delete guard is the one regenerated from the source (`Nv.Gen.C01.cfg`).
 -/
 open Nv Nv.C01
 
 structure OSt where
   started : Bool
+  single : Bool                       -- the `single` variant (struct keys are routable only there)
   rw : Nat
   st : State
   keys : List String                  -- interned key tokens; position = model key
   calls : List (Tid × Key × Bool)     -- every caller id used since `new`: (id, key, write)
 
-def OSt.empty : OSt := ⟨false, 1, Nv.C01.init, [], []⟩
+def OSt.empty : OSt := ⟨false, true, 1, Nv.C01.init, [], []⟩
 
 def cfg : Cfg := Nv.Gen.C01.cfg
 
@@ -43,15 +46,24 @@ def natCanon (s : String) (maxLen : Nat) : Option Nat :=
     | some n => if toString n == s then some n else none
     | none => none
 
-def validKey (s : String) : Bool :=
+/-- canonical decimal integer in [lo, hi] -/
+def intCanon (body : String) (lo hi : Int) : Bool :=
+  if body.length == 0 || body.length > 20 then false else
+  match body.toInt? with
+  | some v => toString v == body && decide (lo ≤ v) && decide (v ≤ hi)
+  | none => false
+
+/-- key tokens: `i` int, `l` int64, `h` int32, `b` uint8, `s` string, `t<int>:<text>` struct (single map only) -/
+def validKey (single : Bool) (s : String) : Bool :=
   match s.toList with
   | 's' :: _ => true
-  | 'i' :: rest =>
-    let body := String.ofList rest
-    if body.length > 20 then false else
-    match body.toInt? with
-    | some v => toString v == body && decide (-9223372036854775808 ≤ v) && decide (v ≤ 9223372036854775807)
-    | none => false
+  | 'i' :: rest => intCanon (String.ofList rest) (-9223372036854775808) 9223372036854775807
+  | 'l' :: rest => intCanon (String.ofList rest) (-9223372036854775808) 9223372036854775807
+  | 'h' :: rest => intCanon (String.ofList rest) (-2147483648) 2147483647
+  | 'b' :: rest => intCanon (String.ofList rest) 0 255
+  | 't' :: rest =>
+    single && rest.contains ':' &&
+      intCanon (String.ofList (rest.takeWhile (· != ':'))) (-9223372036854775808) 9223372036854775807
   | _ => false
 
 def findIdx (l : List String) (s : String) : Option Nat :=
@@ -96,8 +108,15 @@ def stepLine (o : OSt) (line : String) : OSt × String :=
   | ["new", v, rw, prime] =>
     if v != "single" && v != "wide" && v != "xhash" then (o, "bad-op") else
     match (if rw == "d" then some Nv.Gen.C01.defaultRatio else natCanon rw 6), natCanon prime 4 with
-    | some rw, some _ => if rw == 0 then (o, "bad-op") else ({ OSt.empty with started := true, rw := rw }, "ok")
+    | some rw, some _ =>
+      if rw == 0 then (o, "bad-op") else ({ OSt.empty with started := true, single := v == "single", rw := rw }, "ok")
     | _, _ => (o, "bad-op")
+  | ["stress", v, rw, prime, g, nk, ms, seed] =>
+    -- a genuinely parallel run on the implementation: the only correct outcome is `ok`; ends the current map
+    let inR (x : Option Nat) (lo hi : Nat) : Bool := match x with | some n => decide (lo ≤ n) && decide (n ≤ hi) | none => false
+    if (v == "single" || v == "wide" || v == "xhash") && inR (natCanon rw 6) 1 999999 && inR (natCanon prime 4) 0 9999 &&
+        inR (natCanon g 2) 1 64 && inR (natCanon nk 1) 1 8 && inR (natCanon ms 4) 1 5000 && inR (natCanon seed 9) 0 999999999
+    then (OSt.empty, "ok") else (o, "bad-op")
   | ["relx", t, u] =>
     if !o.started then (o, "bad-op") else
     match natCanon t 9, natCanon u 9 with
@@ -124,7 +143,7 @@ def stepLine (o : OSt) (line : String) : OSt × String :=
       else if op == "acqRx" then some (false, true) else if op == "acqWx" then some (true, true) else none
     match kind, natCanon t 9 with
     | some (wr, pc), some t =>
-      if !validKey tok || (callOf o t).isSome then (o, "bad-op") else doAcquire o t tok wr pc
+      if !validKey o.single tok || (callOf o t).isSome then (o, "bad-op") else doAcquire o t tok wr pc
     | _, _ => (o, "bad-op")
   | ["rel", t] =>
     if !o.started then (o, "bad-op") else
@@ -169,7 +188,7 @@ def stepLine (o : OSt) (line : String) : OSt × String :=
           | some s' => ({ o with st := s' }, "ctx woke=" ++ showTids (woke o k o.st s'))
         else (o, "noop")
   | ["inside", tok] =>
-    if !o.started || !validKey tok then (o, "bad-op") else
+    if !o.started || !validKey o.single tok then (o, "bad-op") else
     match findIdx o.keys tok with
     | none => (o, "r=0 w=0")
     | some k =>
@@ -184,7 +203,7 @@ def stepLine (o : OSt) (line : String) : OSt × String :=
     if !o.started then (o, "bad-op") else
     (o, toString ((List.range o.keys.length).filter (fun k => (o.st k).present)).length)
   | ["state", tok] =>
-    if !o.started || !validKey tok then (o, "bad-op") else
+    if !o.started || !validKey o.single tok then (o, "bad-op") else
     match findIdx o.keys tok with
     | none => (o, "cur=0 waiters=0 present=0")
     | some k =>
